@@ -2627,18 +2627,29 @@ class op(object):
         if not variables: 
             raise TypeError('lp must have at least one variable')
         x = variables[0]
-        c = lp1.objective._linear._coeff[x]
+        c = lp1.objective._linear._coeff.get(x)
+        if c is None: c = matrix(0.0, (1,len(x)))    # zero objective
         if _isspmatrix(c): c = matrix(c, tc='d')
 
         inequalities = lp1._inequalities
         if not inequalities:
             raise TypeError('lp must have at least one inequality')
-        G = inequalities[0]._f._linear._coeff[x]
+        G = inequalities[0]._f._linear._coeff.get(x)
+        if G is None:    # zero coefficient matrix
+            if format == 'dense':
+                G = matrix(0.0, (len(inequalities[0]),len(x)))
+            else:
+                G = spmatrix(0.0, [], [], (len(inequalities[0]),len(x)))
         h = -inequalities[0]._f._constant
 
         equalities = lp1._equalities
         if equalities:
-            A = equalities[0]._f._linear._coeff[x]
+            A = equalities[0]._f._linear._coeff.get(x)
+            if A is None:    # zero coefficient matrix
+                if format == 'dense':
+                    A = matrix(0.0, (len(equalities[0]),len(x)))
+                else:
+                    A = spmatrix(0.0, [], [], (len(equalities[0]),len(x)))
             b = -equalities[0]._f._constant
         elif format == 'dense':
             A = matrix(0.0, (0,len(x)))
